@@ -34,7 +34,7 @@ ASSUMPTIONS = ["program-side operands fit the member / variable format (a store 
                "member formats b B h H i I q Q (Member('x') cannot be packed from Python at all); hash variable formats the same plus x",
                "Dict(lru=False); flags ANY/NOEXIST/EXIST; at most 255 hash variables (pack('B', ordinal))",
                "temporaries of the generated code stay below the Dict's key/value images on the stack (C04)"]
-RULE = ("declarations: 0..3 local variables before the Dict, 0..5 hash variables (formats bBhHiIqQ, 15% x; defaults at the format's edges), Key/Value with "
+RULE = ("declarations: 0..3 local variables before the Dict, 0..5 hash variables (formats bBhHiIqQ, 8% x; defaults at the format's edges), Key/Value with "
         "1..5 packed members (5% deliberately unpacked -> AssembleError), capacity 1..6; 4..30 operations from both sides over a pool of 1..5 keys "
         "(python set/get/del/pop/iter, program update with ANY/NOEXIST/EXIST, lookup, modify-in-place, constant insert, hash variable get/set/add from "
         "both sides, reload); non-trivial = a value crossed from one side to the other")
@@ -65,7 +65,7 @@ def gen(rng):
     case = {"locals": [rng.choice("BHIQbhiq") for _ in range(rng.choice([0, 0, 1, 2, 3]))]}
     vs = []
     for _ in range(rng.choice([0, 1, 2, 3, 5])):
-        f = "x" if rng.random() < 0.15 else rng.choice(c10.FMTS)
+        f = "x" if rng.random() < 0.08 else rng.choice(c10.FMTS)
         if f == "x":
             fl = rng.random() < 0.3
             vs.append([f, rng.choice([0, 0, 150000, -250000]) if fl else rng.choice([0, 0, 0, 3]), fl])
@@ -327,7 +327,8 @@ class Shadow:
         self.case = case
         self.d = {}
         self.hv = [None] * len(case["vars"])       # None: not loaded / not determined by the property
-        self.dead = False                          # after the first failure the rest of the case is not judged
+        self.dead = False                          # after a failure that may desynchronise the shadow the Dict part is not judged
+        self.tainted = set()                       # hash variables no longer judged after a failure on them
 
     def load(self):
         for i, (f, d, fl) in enumerate(self.case["vars"]):
@@ -357,7 +358,7 @@ class Shadow:
             v = self.d.pop(k, None)
             return ("value " + show(v) if v is not None else "key-error"), None
         if kind == "py_iter":
-            return (None if not self.d else ("set", set(self.d))), None
+            return ("set", set(self.d)), (None if self.d else "iter-empty")
         if kind in ("pr_update", "pr_const"):
             k, v, fl = (tuple(case["const"]["k"]), tuple(case["const"]["v"]), 0) if kind == "pr_const" else (tuple(o[1]), tuple(o[2]), o[3])
             if (fl == 1 and k in self.d) or (fl == 2 and k not in self.d) or (k not in self.d and len(self.d) >= case["size"]):
@@ -406,16 +407,16 @@ class Shadow:
 
 
 def judge(ctx, case, imp, sh, o, got, idx):
-    if sh.dead:
+    hv = o[0].startswith("hv_")
+    if (sh.dead and not hv) or (hv and len(o) > 1 and o[1] in sh.tainted):
+        sh.expect(imp, o)
         return
     exp, cls = sh.expect(imp, o)
     what = None
     if exp is None:
-        if o[0] == "py_iter" and got == "runtime-error":
-            ctx.stats["note:iterating-empty-dict-raises-RuntimeError"] += 1
         return
     if isinstance(exp, tuple):
-        keys = got[5:].split() if got.startswith("keys ") else None
+        keys = got[5:].split() if got.startswith("keys") else None
         ok = keys is not None and len(keys) == len(set(keys)) and set(keys) == {show(k) for k in exp[1]}
         exp = "keys " + " ".join(sorted(show(k) for k in exp[1]))
     elif exp == "r0 fail":
@@ -424,12 +425,16 @@ def judge(ctx, case, imp, sh, o, got, idx):
         ok = got == exp
     if ok and o[0] == "py_pop" and got.startswith("value"):
         # "an entry deleted on one side is absent on the other": observe through the library's own API
-        still = c10.fill(imp.Key(), o[1]) in imp.e.tbl
-        if still:
-            ok, cls, what = False, "pop-keeps-entry", "pop() returned the value but the entry is still in the map"
+        if c10.fill(imp.Key(), o[1]) in imp.e.tbl:
+            ok, what = False, "pop() returned the value but the entry is still in the map"
             got = got + " ; key still present"
     if not ok:
-        sh.dead = True
+        if hv and len(o) > 1:
+            sh.tainted.add(o[1])
+        elif hv:
+            sh.tainted |= set(range(len(case["vars"])))
+        elif o[0] != "py_iter":
+            sh.dead = True
         ctx.require(False, what or f"operation {idx} {o[0]}: the property expects '{exp}'", case, got, cls)
 
 
@@ -464,7 +469,7 @@ def run_case(ctx, case, real_kernel=False):
         return outs, imp
     if ctx is not None and lres != "ok":
         x = any(f == "x" and fl for f, d, fl in case["vars"])
-        sh.dead = True
+        sh.tainted |= set(range(len(case["vars"])))
         ctx.require(False, "load() raised", case, lres, "hashvar-fixed" if x else None)
     with (c10.emulated(K) if K is not None else _null()):
         for idx, o in enumerate(case["ops"]):
